@@ -5,3 +5,7 @@ package io
 // verifPoint marks a step of the block hand-off protocol. It is an empty, inlinable
 // function unless the package is built with the "verif" tag (verification harness).
 func verifPoint(side, site int, id int32, counter *int32) {}
+
+// verifCorrupt lets the verification harness damage a block inside the decoding pipeline
+// (stage 0: after entropy decoding, stage 1: after the inverse transforms). No-op here.
+func verifCorrupt(stage int, id int32, buf []byte) {}
